@@ -466,6 +466,75 @@ func c05Frame(p *core.Program, r *core.Report, rule string, optsOnly bool) {
 			return true
 		})
 	}
+	if optObj == nil {
+		// the folding of the options may live in a helper: o := resolve(opts) where resolve makes a fresh
+		// zero-valued struct, applies every option to it in a range loop and returns it
+		ast.Inspect(md.Decl.Body, func(n ast.Node) bool {
+			as, ok := n.(*ast.AssignStmt)
+			if !ok || len(as.Lhs) != 1 || len(as.Rhs) != 1 || optObj != nil {
+				return true
+			}
+			call, ok := ast.Unparen(as.Rhs[0]).(*ast.CallExpr)
+			if !ok {
+				return true
+			}
+			hf := p.FuncOf(calleeFunc(info, call))
+			if hf == nil || hf.Decl.Body == nil {
+				return true
+			}
+			hinfo := hf.Pkg.TypesInfo
+			var applied types.Object
+			ast.Inspect(hf.Decl.Body, func(m ast.Node) bool {
+				if rs, ok := m.(*ast.RangeStmt); ok {
+					ast.Inspect(rs.Body, func(k ast.Node) bool {
+						if c, ok := k.(*ast.CallExpr); ok {
+							if sel, ok := c.Fun.(*ast.SelectorExpr); ok && sel.Sel.Name == "Apply" && len(c.Args) == 1 {
+								if id, ok := c.Args[0].(*ast.Ident); ok {
+									applied = hinfo.ObjectOf(id)
+								}
+							}
+						}
+						return true
+					})
+				}
+				return true
+			})
+			if applied == nil {
+				return true
+			}
+			hfresh, returned := false, false
+			ast.Inspect(hf.Decl.Body, func(m ast.Node) bool {
+				switch v := m.(type) {
+				case *ast.AssignStmt:
+					if len(v.Lhs) == 1 && len(v.Rhs) == 1 {
+						if id, ok := v.Lhs[0].(*ast.Ident); ok && hinfo.Defs[id] == applied {
+							e := v.Rhs[0]
+							if u, ok := e.(*ast.UnaryExpr); ok {
+								e = u.X
+							}
+							if cl, ok := e.(*ast.CompositeLit); ok && len(cl.Elts) == 0 {
+								hfresh = true
+							}
+						}
+					}
+				case *ast.ReturnStmt:
+					if len(v.Results) == 1 {
+						if id, ok := ast.Unparen(v.Results[0]).(*ast.Ident); ok && hinfo.ObjectOf(id) == applied {
+							returned = true
+						}
+					}
+				}
+				return true
+			})
+			if hfresh && returned {
+				if id, ok := as.Lhs[0].(*ast.Ident); ok {
+					optObj = info.ObjectOf(id)
+					fresh = true
+				}
+			}
+			return true
+		})
+	}
 	r.Check(optObj != nil && fresh, rule, "net/oneway.makeData per-send options", pos, "options are applied to a fresh zero-valued struct on every send",
 		"the per-send options are not applied to a fresh struct created in makeData: a license override of one send can leak into later sends")
 	// 2./3. partition evaluation of makeData over "per-send license empty / non-empty": on every path
